@@ -112,7 +112,7 @@ def run(run, binfo):
     run.sample(describe(cases[len(cases) // 2]))
     run.extra['correspondence_disagreements'] = len(bad_corr)
     if bad_corr and not run.violations:
-        c, m, i = bad_corr[0]
+        c, m, i = next((x for x in bad_corr if corr_kind(x[1]) == 'failing-input'), bad_corr[0])
         run.violation('correspondence:S4', 'model and implementation disagree on enforce',
                       {'kind': corr_kind(m), 'oracle': 'the Coq model, for which the property is proved', 'obligation': 'correspondence suite S4 (enforce)',
                        'input': describe(c), 'model': m, 'observed': i, 'count': len(bad_corr)})
